@@ -63,7 +63,7 @@ from apischema.serialization.serialized_methods import (
     get_serialized_methods,
 )
 from apischema.type_names import TypeNameFactory, get_type_name
-from apischema.types import AnyType, UndefinedType
+from apischema.types import AnyType, Undefined, UndefinedType
 from apischema.typing import get_args, get_origin, is_typed_dict, is_union
 from apischema.utils import (
     context_setter,
@@ -236,7 +236,11 @@ class SchemaBuilder(
             self.visit_with_conv(field.type, self._field_conversion(field)),
             get_field_schema(tp, field) if tp is not None else field.schema,
         )
-        if not required and "default" not in result:
+        if (
+            not required
+            and "default" not in result
+            and field.get_default() is not Undefined
+        ):
             result = JsonSchema(result)
             with suppress(Exception):
                 result["default"] = serialize(
